@@ -38,6 +38,7 @@ Definition show_pval (v : pval) : string :=
   | VInt z => "i:" ++ Z_to_string z
   | VBool b => if b then "b:True" else "b:False"
   | VFloat r => "f:" ++ r
+  | VNone => "n:None"
   end.
 
 Definition show_param (x : pcase) : string * list (string * string) :=
